@@ -1,6 +1,7 @@
 #pragma once
 #include <string>
 #include <memory>
+#include <atomic>
 
 #include "data.h"
 #include "type.h"
@@ -21,7 +22,10 @@ namespace sqf
             using data_type = sqf::runtime::t_scalar;
         private:
             float m_value;
-            inline static int s_decimals = -1;
+            // Print mode (`toFixed`): it belongs to the runtime that is executing on this thread.
+            // The process-wide value is only used while no runtime is executing on the thread.
+            inline static std::atomic<int> s_decimals = -1;
+            inline static thread_local int* s_decimals_active = nullptr;
         protected:
             bool do_equals(std::shared_ptr<data> other, bool invariant) const override
             {
@@ -52,7 +56,10 @@ namespace sqf
             float value() const { return m_value; }
             void value(float f) { m_value = f; }
             operator float() { return m_value; }
-            static void set_decimals(int val) { s_decimals = val; }
+            static int decimals() { return s_decimals_active != nullptr ? *s_decimals_active : s_decimals.load(); }
+            static void set_decimals(int val) { if (s_decimals_active != nullptr) { *s_decimals_active = val; } else { s_decimals = val; } }
+            /// Makes the passed print mode the active one of this thread, returns the previous one.
+            static int* decimals_active(int* active) { auto old = s_decimals_active; s_decimals_active = active; return old; }
         };
 
         template<> inline std::shared_ptr<sqf::runtime::data> to_data<int8_t>(int8_t  value)              { return std::make_shared<d_scalar>(value); }
